@@ -379,6 +379,304 @@ Example C11_harness_value :
   run_c11 (L [I 0; L (map enc_bkey c11_ks)]) = L [I 0; L (map enc_bkey c11_res); I 1].
 Proof. vm_compute. reflexivity. Qed.
 
+(* ================= REVERSE LAST, with a satisfiable hypothesis =================
+   C11_reverse_last runs the table method with the raw `fuel`, while `extract` runs it with the
+   fuel proved sufficient (Nat.max fuel (fuel_for ops)): for a small `fuel` its hypothesis is
+   unsatisfiable.  Here the pumping sub-universe is read off `run_total` (the table method with
+   the fuel bound of C03's termination theorem): the hypothesis is satisfiable for EVERY `fuel`. *)
+Theorem C11_reverse_last_total : forall fuel root ks res,
+  buckets_ok ks -> extract fuel root ks = Ok res ->
+  Pk root (filter (fun k => negb (in_bucket 0 k))
+             (map (fun i => nth i ks (mkb dummy 0))
+                  (pumping_subuniverse (run_total pick0 (add_ops ks))))) ->
+  forall k, In k res -> bk_bucket k <> 0%nat.
+Proof.
+  intros fuel root ks res B H HP.
+  rewrite (extract_fuel_irrelevant fuel (fuel_bound (add_ops ks)) root ks) in H.
+  apply (extract_reverse_last (fuel_bound (add_ops ks)) root ks res B H).
+  exists (run_total pick0 (add_ops ks)). split; [apply run_total_spec|exact HP].
+Qed.
+
+Example C11_reverse_last_total_nonvacuous : forall fuel res,
+  extract fuel 0 c11_ks = Ok res -> forall k, In k res -> bk_bucket k <> 0%nat.
+Proof.
+  intros fuel res H. apply (C11_reverse_last_total fuel 0%nat c11_ks res c11_buckets H).
+  change (run_total pick0 (add_ops c11_ks)) with c11_st. pk_by_run.
+Qed.
+(* the old statement's hypothesis fails for fuel 0 (the run is out of fuel), the new one does not *)
+Example C11_reverse_last_old_hypothesis_unsatisfiable :
+  run pick0 0 init (add_ops c11_ks) = None.
+Proof. vm_compute. reflexivity. Qed.
+
+(* (imported here: ClassDB.Model / Searcher.Model reuse names of the forest model: init, run, OutOfFuel) *)
+From CSS Require Import ClassDB.Model ClassDB.Proofs Searcher.Model Forest.FindRule Forest.FindRuleProofs
+  Forest.FindRuleRun.
+
+(* ================= EVERY KEY CAN BE TURNED BACK INTO A RULE WITH THAT KEY =================
+   Model: Forest/FindRule.v (_rules_for_class, _find_rule, rules()) over the strategy table and
+   the class database of the C04 searcher model; a forest key is the event EvKey the model of
+   RuleDBForest.add emits, computed by the same functions (Searcher.Model.forest_key /
+   reverse_keys).  Vocabulary (Forest/FindRuleProofs.v):
+     good s            the class database of s is well formed and no exception was raised
+     grows d d'        d' has all the labels of d and classdb.is_empty answers the same in both
+     cand_key T s r v  (state, forest key) of the candidate rule r in its form v
+                       (VNormal: r itself; VReverse i: r.to_reverse_rule(i))
+     add_keys b s r    what RuleDBForest(reverse=b).add computes for r: forest_key, then the
+                       reverse keys when b and r is reversible (C11_add_keys_is_forest_add)
+     rules_for_class T pack c   the rules _rules_for_class re-creates from class c
+     key_labels k      parent :: children of the key;  labels_used d ls: every label is in use
+     find_rule T pack scan s key   scan = false: _find_rule as it is (replays the classes of the
+                       key); scan = true: with the repair proposed for the open finding
+                       (findings/c11_find_rule_scan_all_classes.diff: then every other label in use)
+     search_labels scan s key      the labels whose classes are replayed. *)
+Section FindRule.
+Variable T : table.
+Variable pack : list Z.
+
+(* the keys of the theorems below are exactly what the model of RuleDBForest.add emits *)
+Theorem C11_add_keys_is_forest_add : forall mode ar s start ends r,
+  forest_add T mode ar s start ends r =
+  (let s1 := if r_pe T r then add_empty_rules T ar s (combine ends (kids_of T r)) else s in
+   let '(s3, ks) := add_keys T (mode =? 2)%Z s1 r in emits ks s3).
+Proof. exact (forest_add_is_add_keys T). Qed.
+
+(* whatever _find_rule returns was re-created by the pack from a class of the key, and its
+   forest key - parent, children, shifts AND bucket - evaluated again in the state _find_rule
+   leaves behind, IS the requested key *)
+Theorem C11_find_rule_sound : forall scan s key s' r v,
+  good s -> labels_used (cdb s) (key_labels key) ->
+  find_rule T pack scan s key = (s', Found r v) ->
+  good s' /\
+  (exists l c, In l (search_labels scan s key) /\ label_of Z.eqb (fun c : Z => c) (cdb s') c = Some l /\
+               In r (rules_for_class T pack c)) /\
+  In v (variants_of T r) /\
+  exists s'', cand_key T s' r v = (s'', key) /\ good s''.
+Proof.
+  intros scan s key s' r v G U H.
+  destruct (find_rule_sound T pack _ _ _ _ _ _ G U H) as (G' & _ & A & B & L & E).
+  split; auto. split; auto. split; auto. apply accepted_cand_key; auto.
+Qed.
+
+(* TOTAL: a key RuleDBForest.add inserted for the rule r is turned back into a rule with the
+   same key by _find_rule in every later state, provided the pack re-creates r from a class c0
+   whose label is the parent or a child of the key *)
+Theorem C11_find_rule_total : forall reverse s0 r s1 ks s key c0 l0,
+  good s0 -> rule_children T r <> None ->
+  add_keys T reverse s0 r = (s1, ks) -> In key ks ->
+  good s -> grows T (cdb s1) (cdb s) ->
+  In r (rules_for_class T pack c0) ->
+  label_of Z.eqb (fun c : Z => c) (cdb s) c0 = Some l0 -> In l0 (key_labels key) ->
+  labels_used (cdb s) (key_labels key) ->
+  exists s' r' v', find_rule T pack false s key = (s', Found r' v') /\ good s' /\
+    In v' (variants_of T r') /\
+    (exists l c, In l (key_labels key) /\ label_of Z.eqb (fun c : Z => c) (cdb s') c = Some l /\
+                 In r' (rules_for_class T pack c)) /\
+    exists s'', cand_key T s' r' v' = (s'', key) /\ good s''.
+Proof.
+  intros reverse s0 r s1 ks s key c0 l0 G0 Hch Ea Hk G X Hr Hc Hl U.
+  assert (Hl' : In l0 (search_labels false s key)).
+  { unfold search_labels, search_labels_d. rewrite app_nil_r. exact Hl. }
+  destruct (find_rule_total T pack false reverse s0 r s1 ks s key c0 l0 G0 Hch Ea Hk G X Hr Hc Hl' U)
+    as (s' & r' & v' & A & B & C & (l & c & D1 & D2) & E).
+  exists s', r', v'. split; auto. split; auto. split; auto. split; auto.
+  exists l, c. unfold search_labels, search_labels_d in D1. rewrite app_nil_r in D1. auto.
+Qed.
+
+(* the same with the proposed repair: NO condition on where the rule was produced, the class
+   it was produced from only has to have a label (it always has: it is the class that was
+   being expanded) *)
+Theorem C11_find_rule_total_with_repair : forall reverse s0 r s1 ks s key c0 l0,
+  good s0 -> rule_children T r <> None ->
+  add_keys T reverse s0 r = (s1, ks) -> In key ks ->
+  good s -> grows T (cdb s1) (cdb s) ->
+  In r (rules_for_class T pack c0) ->
+  label_of Z.eqb (fun c : Z => c) (cdb s) c0 = Some l0 ->
+  labels_used (cdb s) (key_labels key) ->
+  exists s' r' v', find_rule T pack true s key = (s', Found r' v') /\ good s' /\
+    exists s'', cand_key T s' r' v' = (s'', key) /\ good s''.
+Proof. exact (find_rule_total_scan T pack). Qed.
+
+(* ... in particular ALWAYS when the pack re-creates the rule from its own parent class: every
+   rule of a plain, verification or symmetry strategy of the pack, every strategy a factory
+   yields as such, every ready rule a factory yields for the class it is applied to
+   (C11_rule_parent_plain / C11_rule_parent_item say which rules these are) *)
+Theorem C11_find_rule_total_own_parent : forall scan reverse s0 r s1 ks s key l0,
+  good s0 -> rule_children T r <> None ->
+  add_keys T reverse s0 r = (s1, ks) -> In key ks ->
+  good s -> grows T (cdb s1) (cdb s) ->
+  In r (rules_for_class T pack (r_parent r)) ->
+  label_of Z.eqb (fun c : Z => c) (cdb s) (r_parent r) = Some l0 ->
+  labels_used (cdb s) (key_labels key) ->
+  exists s' r' v', find_rule T pack scan s key = (s', Found r' v') /\ good s' /\
+    exists s'', cand_key T s' r' v' = (s'', key) /\ good s''.
+Proof. exact (find_rule_total_own_parent T pack). Qed.
+
+Theorem C11_rule_parent_plain : forall sid c r x,
+  In r (rules_from_strategy T sid c) -> strat_of T sid = Some x -> s_kind x <> 1%Z -> r_parent r = c.
+Proof. exact (rules_from_strategy_parent T). Qed.
+
+Theorem C11_rule_parent_item : forall c it r, In r (rules_of_item T c it) ->
+  r_parent r = c \/ (exists p, i_on it = Some p /\ r_parent r = p).
+Proof. exact (rules_of_item_parent T). Qed.
+
+(* THE FAILING CASE, exactly: RuntimeError("Can't find a rule") means that no candidate the
+   pack re-creates from a class of the key has the key.  With C11_find_rule_total: for a key
+   inserted for r (and an unchanged view) this happens only when r is re-created from NO class
+   of the key, i.e. r is a ready rule of a factory with a foreign parent, produced only from
+   classes outside the key (open finding find-rule-foreign-parent-outside-key,
+   C11_find_rule_foreign_parent_fails below) *)
+Theorem C11_find_rule_not_found : forall scan s key s',
+  good s -> labels_used (cdb s) (key_labels key) ->
+  find_rule T pack scan s key = (s', NotFound) ->
+  good s' /\
+  forall l c r v, In l (search_labels scan s key) -> label_of Z.eqb (fun c : Z => c) (cdb s') c = Some l ->
+    In r (rules_for_class T pack c) -> In v (variants_of T r) ->
+    forall s'' k, cand_key T s' r v = (s'', k) -> k <> key.
+Proof.
+  intros scan s key s' G U H. destruct (find_rule_not_found T pack _ _ _ _ G U H) as (G' & _ & N).
+  split; auto. intros l c r v Hl Hc Hr Hv s'' k Ek.
+  destruct (N l c r v Hl Hc Hr Hv) as (L & Ne).
+  destruct (cand_key_good T _ _ _ _ _ G' Ek) as (G'' & X & _ & ->).
+  rewrite (ckey_stable T _ _ _ _ (proj1 G') (proj1 G'') X L). exact Ne.
+Qed.
+
+(* _find_rule raises nothing else: the state it leaves is usable *)
+Theorem C11_find_rule_no_exception : forall scan s key s' f,
+  good s -> labels_used (cdb s) (key_labels key) ->
+  find_rule T pack scan s key = (s', f) -> good s' /\ grows T (cdb s) (cdb s').
+Proof. exact (find_rule_good T pack). Qed.
+
+(* the hypothesis `grows` of C11_find_rule_total between insertion and extraction: labels
+   are never changed (C04_labels_stable), so it holds whenever the emptiness answers are
+   truthful in both states - which C04_empty_cache_truthful proves for every run of the
+   searcher under the strategy contracts *)
+Theorem C11_view_grows_under_contracts : forall d d',
+  @WF Z d -> @WF Z d' -> extends d d' ->
+  EmptyOK (fun k : Z => k) (oracle T) d -> EmptyOK (fun k : Z => k) (oracle T) d' -> grows T d d'.
+Proof. exact (grows_of_EOK T). Qed.
+
+(* rules(cache): every key it gets past is answered - from the cache or by _find_rule - by a
+   rule that has this key, in order; it gives up at the first key that no candidate re-created
+   from the classes of the key has *)
+Theorem C11_rules_served : forall scan s cache needed s' out e,
+  good s -> (forall k, In k needed -> labels_used (cdb s) (key_labels k)) ->
+  rules T pack scan s cache needed = (s', out, e) ->
+  good s' /\ served T pack scan (cdb s') needed out e.
+Proof.
+  intros scan s cache needed s' out e G U H.
+  destruct (rules_served T pack _ _ _ _ _ _ _ G U H) as (G' & _ & S). auto.
+Qed.
+
+End FindRule.
+
+(* the harness entry point runs the extractor model on (root, keys) inputs unchanged *)
+Theorem C11_harness_dispatch : forall z rest,
+  run_c11_all (L (I z :: rest)) = run_c11 (L (I z :: rest)).
+Proof. reflexivity. Qed.
+
+(* ---- non-vacuity.  The universe of the seeded change C02c: T1 = class 0, T2 = class 1,
+   A1 = class 2; Subtract (sid 0) and Factor (sid 1) both decompose T2 into (T1, A1), with
+   shifts (0,0) and (1,1); Peel (sid 2): T1 -> (T2, A1); sid 3 verifies A1.  Pack order
+   Subtract, Factor, Peel, verification. *)
+Definition fr_T : table :=
+  mkT [0; 0; 0]%Z
+      [mkS 0 false true false true [(1, mkE [0; 2] false false [0; 0])]%Z [];
+       mkS 0 false true false true [(1, mkE [0; 2] false false [1; 1])]%Z [];
+       mkS 0 false true false true [(0, mkE [1; 2] false true [0; 0])]%Z [];
+       mkS 2 false false false false [(2, mkE [] false false [])]%Z []]
+      [3]%Z [].
+Definition fr_pack : list Z := [0; 1; 2; 3]%Z.
+Definition fr_s0 : st := state_of [0; 1; 2]%Z [Some false; Some false; Some false].
+Definition fr_factor : rule := mkR 1 1 RPlain.
+Definition fr_subtract : rule := mkR 0 1 RPlain.
+Definition fr_key : event := EvKey 1 [0; 2] [1; 1] 1.
+
+Lemma fr_good : good fr_s0.
+Proof.
+  split; [|reflexivity]. split; [reflexivity|]. split; [reflexivity|].
+  simpl. repeat constructor; simpl; intuition discriminate.
+Qed.
+
+(* the key is the one RuleDBForest.add inserts for Factor; _find_rule returns Factor although
+   Subtract comes first in the pack and has the same parent and the same children *)
+Example C11_find_rule_nonvacuous :
+  add_keys fr_T true fr_s0 fr_factor = (fr_s0, [fr_key]) /\
+  find_rule fr_T fr_pack false fr_s0 fr_key = (fr_s0, Found fr_factor VNormal) /\
+  cand_key fr_T fr_s0 fr_subtract VNormal = (fr_s0, EvKey 1 [0; 2] [0; 0] 1).
+Proof. repeat split; vm_compute; reflexivity. Qed.
+
+Example C11_find_rule_total_nonvacuous :
+  exists s' r' v', find_rule fr_T fr_pack false fr_s0 fr_key = (s', Found r' v') /\ good s' /\
+    exists s'', cand_key fr_T s' r' v' = (s'', fr_key) /\ good s''.
+Proof.
+  destruct (C11_find_rule_total fr_T fr_pack true fr_s0 fr_factor fr_s0 [fr_key] fr_s0 fr_key 1%Z 1%Z)
+    as (s' & r' & v' & A & B & _ & _ & C).
+  - exact fr_good.
+  - discriminate.
+  - vm_compute. reflexivity.
+  - left. reflexivity.
+  - exact fr_good.
+  - apply grows_refl.
+  - vm_compute. auto.
+  - reflexivity.
+  - left. reflexivity.
+  - intros l [<-|[<-|[<-|[]]]]; [exists 1%Z|exists 0%Z|exists 2%Z]; reflexivity.
+  - exists s', r', v'. auto.
+Qed.
+
+(* a reverse rule: the key of Peel reversed w.r.t. its first child (parent T2, children T1, A1,
+   shifts (0,0), bucket REVERSE) is re-created from class T1, a CHILD of the key *)
+Example C11_find_rule_reverse_nonvacuous :
+  find_rule fr_T fr_pack false fr_s0 (EvKey 1 [0; 2] [0; 0] 0) = (fr_s0, Found (mkR 2 0 RPlain) (VReverse 0)).
+Proof. vm_compute. reflexivity. Qed.
+
+(* the failing case: the factory (sid 1) applied to class 0 yields the READY rule S0(1) -> (2);
+   its key (1, (2), (0), EQUIV) is inserted, but neither class 1 nor class 2 re-creates it *)
+Definition ff_T : table :=
+  mkT [0; 0; 0]%Z
+      [mkS 0 false true false true [(1, mkE [2] false false [0])]%Z [];
+       mkS 1 false true true true [] [(0, [mkI 0 (Some 1) false])]%Z;
+       mkS 2 false false false false [(2, mkE [] false false [])]%Z []]
+      [2]%Z [].
+Example C11_find_rule_foreign_parent_fails :
+  In (mkR 0 1 RPlain) (rules_from_strategy ff_T 1 0) /\
+  add_keys ff_T false fr_s0 (mkR 0 1 RPlain) = (fr_s0, [EvKey 1 [2] [0] 2]) /\
+  find_rule ff_T [1; 2]%Z false fr_s0 (EvKey 1 [2] [0] 2) = (fr_s0, NotFound) /\
+  find_rule ff_T [1; 2]%Z true fr_s0 (EvKey 1 [2] [0] 2) = (fr_s0, Found (mkR 0 1 RPlain) VNormal) /\
+  ~ In (mkR 0 1 RPlain) (rules_for_class ff_T [1; 2]%Z 1) /\
+  ~ In (mkR 0 1 RPlain) (rules_for_class ff_T [1; 2]%Z 2).
+Proof.
+  split; [vm_compute; auto|]. split; [vm_compute; reflexivity|]. split; [vm_compute; reflexivity|].
+  split; [vm_compute; reflexivity|]. split; vm_compute; intuition discriminate.
+Qed.
+
+(* the hypothesis `grows` is needed: the key of Peel (T1 -> T2, A1) inserted while the cache
+   says "A1 is empty" has the bucket EQUIV (one non-empty child); once the cache says "A1 is not
+   empty" (classdb.set_empty(label, False) by add_rule for a child of a rule that is not
+   possibly_empty) the recomputed bucket is NORMAL and no candidate has the key any more.  This
+   needs a strategy that breaks its contract: with truthful caches both answers agree
+   (C11_view_grows_under_contracts) *)
+Example C11_find_rule_needs_same_emptiness :
+  let s_a := state_of [0; 1; 2]%Z [Some false; Some false; Some true] in
+  good s_a /\ good fr_s0 /\
+  add_keys fr_T false s_a (mkR 2 0 RPlain) = (s_a, [EvKey 0 [1; 2] [0; 0] 2]) /\
+  find_rule fr_T fr_pack false fr_s0 (EvKey 0 [1; 2] [0; 0] 2) = (fr_s0, NotFound) /\
+  ~ grows fr_T (cdb s_a) (cdb fr_s0).
+Proof.
+  split; [|split; [exact fr_good|]].
+  { split; [|reflexivity]. split; [reflexivity|]. split; [reflexivity|].
+    simpl. repeat constructor; simpl; intuition discriminate. }
+  split; [vm_compute; reflexivity|]. split; [vm_compute; reflexivity|].
+  intros (_ & E). specialize (E 2%Z). vm_compute in E. discriminate E.
+Qed.
+
+(* rules(): the rule of EmptyStrategy is dropped, an EQUIV key with two children is handed out as
+   an equivalence rule, a cached rule is used without a search *)
+Example C11_rules_nonvacuous :
+  rules fr_T fr_pack false fr_s0 [(fr_factor, VNormal)] [fr_key; EvKey 2 [] [] 3] =
+  (fr_s0, [ORule fr_factor VNormal false; ORule (mkR 3 2 RVer) VNormal false], None).
+Proof. vm_compute. reflexivity. Qed.
+
 (* ================= the bucket order is the source's (translator) =================
    Extractor.minimize is `for key in MINIMIZE_ORDER: _minimize_key(key)` run over
    the constant of the source (Gen/ForestMinimizeOrder.v, re-translated from
@@ -410,3 +708,16 @@ Print Assumptions C11_harness_never_out_of_fuel.
 Print Assumptions C11_minimal_one_rule_per_class_total.
 Print Assumptions C11_one_rule_per_class_total.
 Print Assumptions C11_minimize_order_is_source.
+Print Assumptions C11_reverse_last_total.
+Print Assumptions C11_add_keys_is_forest_add.
+Print Assumptions C11_find_rule_sound.
+Print Assumptions C11_find_rule_total.
+Print Assumptions C11_find_rule_total_with_repair.
+Print Assumptions C11_find_rule_total_own_parent.
+Print Assumptions C11_rule_parent_plain.
+Print Assumptions C11_rule_parent_item.
+Print Assumptions C11_find_rule_not_found.
+Print Assumptions C11_find_rule_no_exception.
+Print Assumptions C11_view_grows_under_contracts.
+Print Assumptions C11_rules_served.
+Print Assumptions C11_harness_dispatch.
